@@ -98,6 +98,11 @@ def create_new_pairing(facts, res):
 def shifted_positions_pairing(facts, res):
     R = "C15.1.shifted-positions-pairing"
     n = 0
+    # the acquire/release pair must exist before its call sites can be judged: without the release routine the
+    # ownership idiom has changed and every "released 0 times" report would be about a rule that no longer applies
+    if len([f for f in facts.functions if f["name"] == "DuplicatePositionsAndApplyShift" and not f.get("inst")]) != 1 or \
+       len([f for f in facts.functions if f["name"] == "FreePositions" and not f.get("inst")]) != 1:
+        raise AnalysisBroken("TbfPeriodicShifter::Neighbor::{DuplicatePositionsAndApplyShift,FreePositions} not found")
     for cls in KERNELS:
         for fn in facts.methods_of(cls):
             b = tbf.body(fn)
@@ -463,6 +468,69 @@ def member_pointers_into_containers(facts, res, R="C15.5.member-pointer-lifetime
     return n, seen_classes
 
 
+# --------------------------------------------------------------------------- C15.6 copied owners
+COPIED_ROOTS = ["FRotationKernel", "FUnifKernel", "TbfTestKernel", "TbfInteractionCounter", "TbfInteractionTimer", "TbfInteractionPrinter"]
+
+
+def copied_owners(facts, res, R="C15.6.copied-owner"):
+    """The executors copy kernel objects (one per worker, and again whenever the per-worker vector grows).  A kernel class - or a
+    class it holds by value - whose destructor releases a raw pointer member must not be copied member-wise: it needs a
+    user-provided copy constructor that gives the copy its own storage (or a deleted one), otherwise two objects release the
+    same block and the survivors keep using it."""
+    import kstate
+    ks = kstate.KState(facts)
+    n = 0
+    todo = [c for c in COPIED_ROOTS if c in ks.classes]
+    seen = set()
+    while todo:
+        c = todo.pop()
+        if c in seen:
+            continue
+        seen.add(c)
+        for h in ks.holders(c):
+            if h.cls == c and h.kind == "value":
+                todo.append(h.target)
+        for b in ks.bases(c):
+            todo.append(b)
+        ptrs = {fl["name"] for _cn, fl in ks.fields(c, with_bases=False) if re.search(r"\*\s*(const)?\s*$", fl.get("t", "").strip())}
+        if not ptrs:
+            continue
+        dtors = [m for m in ks.methods(c, with_bases=False) if m["kind"] == "CXXDestructor"]
+        freed = set()
+        for d in dtors:
+            stack = [d]
+            seen_m = set()
+            while stack:
+                m = stack.pop()
+                if id(m) in seen_m:
+                    continue
+                seen_m.add(id(m))
+                for x in walk(tbf.body(m)):
+                    if x.get("k") == "CXXDeleteExpr":
+                        r = ks.field_ref(kids(x)[0], ptrs)
+                        if r:
+                            freed.add(r)
+                    if x.get("k") in ("CallExpr", "CXXMemberCallExpr"):
+                        nm = tbf.callee_name(x) or ""
+                        if "free" in nm.lower() and tbf.call_args(x):
+                            r = ks.field_ref(tbf.call_args(x)[0], ptrs)
+                            if r:
+                                freed.add(r)
+                        if tbf.call_base(x) is None or strip(tbf.call_base(x)).get("k") == "CXXThisExpr":
+                            stack += [g for g in ks.methods(c, nm, with_bases=False) if g["kind"] == "CXXMethod"]
+        if not freed:
+            continue
+        n += 1
+        decl = [mm for cl in ks.classes.get(c, []) for mm in cl.get("methods", []) if mm.get("copyctor")]
+        state = "implicit" if not decl else ("deleted" if all(mm.get("deleted") for mm in decl) else ("defaulted" if any(mm.get("defaulted") for mm in decl) else "user-provided"))
+        res.instance(R, c, tbf.rel(facts.path_of(dtors[0])) + ":%d" % dtors[0]["l"][1], "destructor releases %s; copy constructor: %s" % (sorted(freed), state))
+        if state in ("implicit", "defaulted"):
+            res.violation(R, tbf.rel(facts.path_of(dtors[0])), c, "member-wise-copy:%s" % c, dtors[0]["l"][1],
+                          "%s releases %s in its destructor but is copied member-wise (%s copy constructor), and the executors copy kernels: two objects release the same block "
+                          "(double free) and the survivor keeps using freed memory" % (c, sorted(freed), state))
+    return n
+
+
 def run(res, tier):
     facts = tbf.scan("core")
     res.units.append("umbrella TU 'core': OpenMP executors (CreateNew), rotation/uniform kernels + TbfPeriodicShifter, TbfMemoryBlock, wrapper/top-tree fill idioms")
@@ -471,7 +539,11 @@ def run(res, tier):
     res.rule("C15.3 capture lifetime of OpenMP tasks (C03.c) and array-fill idiom of position slots (C02.3)")
     res.assumptions.append("only the structural clauses are decided; out-of-bounds, overflow, invalid shifts and assertion failures on arbitrary inputs are sanitizer territory and not claimed")
     create_new_pairing(facts, res)
-    shifted_positions_pairing(facts, res)
+    deferred = []       # a sub-rule that cannot follow a restructuring must not hide what the other sub-rules find in the same change
+    try:
+        shifted_positions_pairing(facts, res)
+    except AnalysisBroken as e_:
+        deferred.append(e_)
     memoryblock_typestate(facts, res)
     nt = 0
     for cls in OMP_CLASSES:
@@ -502,6 +574,9 @@ def run(res, tier):
     if h != 2 or _s != 5:
         raise AnalysisBroken("positive control fixtures/c15_int_shift.cpp: %d of 2 narrow run-time shifts reported (%d of 5 shifts seen)" % (h, _s))
     res.instance("C15.4.shift-width", "positive control", "verif:fixtures/c15_int_shift.cpp", "2 of 2 seeded constructs reported, 3 of 3 harmless ones silent")
+    res.rule("C15.6 a class the executors copy (kernels and what they hold by value) whose destructor releases a raw pointer member has a user-provided or deleted copy constructor")
+    n6 = copied_owners(facts, res)
+    res.floor("C15.6", n6, 1, "copied classes whose destructor releases a pointer member")
     res.rule("C15.5 a member that stores the address of an element of a container member is reset by every member function that clears / refills / reallocates that container")
     np_, nc_ = member_pointers_into_containers(facts, res)
     res.instance("C15.5.member-pointer-lifetime", "classes of src/core and src/algorithms", "umbrella 'core'", "%d classes with pointer-typed members examined, %d members hold addresses of container elements" % (nc_, np_))
@@ -518,3 +593,5 @@ def run(res, tier):
     for cls in c02.TOPTREES:
         for fn, sr, call, op, slots in c02.toptree_calls(facts, cls, cmap):
             c02.fill_idiom(facts, fn, sr, call, op, slots, res, R="C15.3.array-fill")
+    if deferred and not res.violations:
+        raise deferred[0]
